@@ -117,7 +117,8 @@ fn run_generate(
                         config_loaded = true;
                         break;
                     }
-                    Ok(None) => break,
+                    // no typegen section in this file: the next location may have one
+                    Ok(None) => continue,
                     Err(_) => continue,
                 }
             }
